@@ -146,7 +146,11 @@ def gen_sympy(rng, depth):
         return sympy.Function(rng.choice(["f", "g", "cost"]))(a, *([gen_sympy(rng, depth - 2)] if rng.random() < 0.4 else []))
     it = sympy.Symbol("it")
     body = a * it + gen_sympy(rng, depth - 2)
-    return rng.choice([sympy.Sum, sympy.Product])(body, (it, 0, rng.choice([sympy.Symbol("N") - 1, sympy.Integer(4), sympy.Symbol("k")])))
+    # limits: the customary 0..N-1, other lower limits, and one- and two-element ranges (lower limit = upper limit: a reader that
+    # "unwraps" such a range must still substitute the iterator)
+    lo = rng.choice([sympy.Integer(0)] * 3 + [sympy.Integer(1), sympy.Integer(2), sympy.Symbol("k")])
+    hi = rng.choice([sympy.Symbol("N") - 1, sympy.Integer(4), sympy.Symbol("k"), lo, lo, lo + 1])
+    return rng.choice([sympy.Sum, sympy.Product])(body, (it, lo, hi))
 
 
 def literal_precision(ctx):
